@@ -6,12 +6,14 @@ import (
 	"fmt"
 	ht "html/template"
 	"io"
+	iofs "io/fs"
 	"mime"
 	"os"
 	"path/filepath"
 	"strings"
 	"testing/fstest"
 	tt "text/template"
+	"time"
 
 	mail "github.com/wneessen/go-mail"
 	"pgregory.net/rapid"
@@ -82,13 +84,59 @@ func (r rewritingMiddleware) Type() mail.MiddlewareType {
 // RemoveFiles makes every file-system backed source of the message vanish: the on-disk files are
 // removed and the entries of the in-memory file systems deleted.
 func (b *Built) RemoveFiles() {
+	// two ways of becoming unreadable, chosen by the parity of the content length (so that a replayed case
+	// does the same): the file is gone (Open fails), or a directory has taken its place (Open succeeds,
+	// the first Read fails)
 	for _, p := range b.FilePaths {
+		st, err := os.Stat(p)
 		_ = os.Remove(p)
+		if err == nil && st.Size()%2 == 1 {
+			_ = os.Mkdir(p, 0o755)
+		}
 	}
-	for _, fs := range b.FSMaps {
-		delete(fs, "payload.json")
+	for _, fsys := range b.FSMaps {
+		f := fsys["payload.json"]
+		delete(fsys, "payload.json")
+		if f != nil && len(f.Data)%2 == 1 {
+			fsys["payload.json"] = &fstest.MapFile{Mode: iofs.ModeDir | 0o755}
+		}
 	}
 }
+
+// faultyFS is a caller's fs.FS with one file, "payload.json", whose Read behaves like faultyRS: every Open
+// starts a new pass; in a failing pass Read reports the injected error when the position reaches FailAfter.
+type faultyFS struct {
+	data  []byte
+	p     Producer
+	calls *int
+	armed *bool
+}
+
+type faultyFile struct {
+	rs *faultyRS
+	n  int
+}
+
+func (f faultyFS) Open(name string) (iofs.File, error) {
+	if name != "payload.json" {
+		return nil, &iofs.PathError{Op: "open", Path: name, Err: iofs.ErrNotExist}
+	}
+	return &faultyFile{rs: &faultyRS{data: f.data, p: f.p, calls: f.calls, armed: f.armed}, n: len(f.data)}, nil
+}
+func (f *faultyFile) Read(b []byte) (int, error) { return f.rs.Read(b) }
+func (f *faultyFile) Close() error               { return nil }
+func (f *faultyFile) Stat() (iofs.FileInfo, error) {
+	return faultyInfo{size: int64(f.n)}, nil
+}
+
+type faultyInfo struct{ size int64 }
+
+func (i faultyInfo) Name() string        { return "payload.json" }
+func (i faultyInfo) Size() int64         { return i.size }
+func (i faultyInfo) Mode() iofs.FileMode { return 0o644 }
+func (i faultyInfo) ModTime() time.Time  { return time.Unix(0, 0) }
+func (i faultyInfo) IsDir() bool         { return false }
+func (i faultyInfo) Sys() interface{}    { return nil }
 
 func Excluded(element string) bool {
 	for _, e := range strings.Split(os.Getenv("VERIF_GEN_EXCLUDE"), ",") {
@@ -117,6 +165,14 @@ func FaultFlavour(t *rapid.T, s *MsgSpec, idx int, allowAtSeek bool) {
 		p = &f.Prod
 	}
 	p.Err = rapid.SampledFrom([]string{"", "", "", "eof", "wrapped-eof", "unexpected-eof", "closed-pipe"}).Draw(t, "faulterr")
+	if f != nil && !Excluded("iofs-faulty") && rapid.IntRange(0, 4).Draw(t, "faultinfs") == 0 {
+		// ... or into a file of the caller's fs.FS behind the library's AttachFromIOFS/EmbedFromIOFS producer
+		f.Source = "iofs-faulty"
+		if p.Err == "eof" {
+			p.Err = ""
+		}
+		return
+	}
 	if f != nil && rapid.IntRange(0, 2).Draw(t, "faultinreadseeker") == 0 {
 		f.Source = "readseeker"
 		// a source whose rewind failed stays broken, so this flavour is only for checks that do not
@@ -570,7 +626,7 @@ func Build(spec *MsgSpec, env *Env) (*Built, error) {
 		calls := new(int)
 		b.Calls = append(b.Calls, calls)
 		src := f.Source
-		if !plainProducer(f.Prod) && src != "readseeker" {
+		if !plainProducer(f.Prod) && src != "readseeker" && src != "iofs-faulty" {
 			src = "writer"
 		}
 		var err error
@@ -613,6 +669,15 @@ func Build(spec *MsgSpec, env *Env) (*Built, error) {
 				m.EmbedFile(path, fopts...)
 			} else {
 				m.AttachFile(path, fopts...)
+			}
+		case "iofs-faulty":
+			// the library's own fs.FS producer over a file system of the caller's whose file fails in Read
+			fsys := faultyFS{data: f.Content, p: f.Prod, calls: calls, armed: b.Armed}
+			fopts = append(fopts, mail.WithFileName(f.Name))
+			if embed {
+				err = m.EmbedFromIOFS("payload.json", fsys, fopts...)
+			} else {
+				err = m.AttachFromIOFS("payload.json", fsys, fopts...)
 			}
 		case "iofs":
 			fsys := fstest.MapFS{"payload.json": &fstest.MapFile{Data: f.Content}}
